@@ -214,14 +214,14 @@ func init() {
 	reg(&PropDef{
 		ID:    "C13",
 		Title: "Dispute settlement pays out exactly what was paid in, once",
-		Funcs: fcNP("x/dispute/keeper.Keeper.ExecuteVote", "x/dispute/keeper.Keeper.ReturnSlashedTokens", "x/dispute/keeper.Keeper.RefundDisputeFee", "x/dispute/keeper.msgServer.WithdrawFeeRefund", "x/dispute/keeper.Keeper.ClaimReward", "x/dispute/keeper.Keeper.CalculateReward", "x/dispute/keeper.msgServer.AddFeeToDispute"),
+		Funcs: fcNP("x/dispute/keeper.Keeper.ExecuteVote", "x/dispute/keeper.Keeper.ReturnSlashedTokens", "x/dispute/keeper.Keeper.RefundDisputeFee", "x/dispute/keeper.msgServer.WithdrawFeeRefund", "x/dispute/keeper.Keeper.ClaimReward", "x/dispute/keeper.Keeper.CalculateReward", "x/dispute/keeper.msgServer.AddFeeToDispute", "x/dispute/keeper.Keeper.RewardReporterBondToFeePayers"),
 		Assumptions: []string{
 			"trusted frames for the reporter keeper's ReturnSlashedTokens, FeeRefund, AddAmountToStake (they write reporter/staking state and the two staking pool accounts only); their effect on the stake ledger is C05 and not claimed",
 			"stored dispute records are well formed (FeeTotal > 0, SlashAmount >= BurnAmount >= 0, vote result is a defined enum value), Dust is below one loya, the payer is not the dispute module account",
 		},
 		NotDecided: []string{
 			"that all pay-outs together equal fees paid plus escrowed stake over a whole dispute (needs the sum over all payers and voters); the amount of a voter reward (CalculateReward: decided are that it only reads and that a tipper's tips are read as of the block of a round of the dispute; the pro-rata formula over the three groups is not); repeated payments by the same payer and payers of later rounds (suspected defects, no check yet)",
-			"RewardReporterBondToFeePayers' pro-rata amount",
+			"RewardReporterBondToFeePayers' pro-rata amount (decided: the coins leave the escrow exactly as they are staked for the fee payer, the sub-loya remainder is below one loya; not decided: amount * 10^6 + remainder equals the payer's share of the bond -- the code divides the 18-decimal share by 10^6 with rounding before truncating, which can round up to the next whole loya when the share ends in twelve or more nines)",
 		},
 	})
 	reg(&PropDef{
